@@ -202,6 +202,21 @@ Theorem C01_e2e_oracle_reachable : forall (L : Z) W kinds ops,
   exists os, forallb nwb_op os = true /\ e2e_run L (init W kinds) 1%N ops = run L (init W kinds) os.
 Proof. exact e2e_states_are_reachable. Qed.
 
+(* ... also with abortive clients (connection ids whose service call ends by itself as soon as it has started; each operation
+   comes with the ids known when it is issued) *)
+Theorem C01_e2e_ab_oracle_reachable : forall (L : Z) W kinds (ops : list (list N * e2e_op)),
+  forallb nwb_op (e2e_script_ab L (init W kinds) 1%N ops) = true /\
+  e2e_run_ab L (init W kinds) 1%N ops = run L (init W kinds) (e2e_script_ab L (init W kinds) 1%N ops).
+Proof. intros L W kinds ops. split; [apply e2e_script_ab_nw | apply e2e_run_ab_is_run]. Qed.
+
+(* non-vacuity: one worker, limit 1, paused; an abortive client and an ordinary one wait in the backlog; after Resume the abortive
+   one is served first and ends by itself, then the ordinary one is in progress *)
+Example C01_e2e_ab_example :
+  let st := e2e_run_ab 1 (init 1 [false]) 1%N [([], XPause); ([1%N], XConnect 0); ([1%N], XConnect 0); ([1%N], XResume)] in
+  err st = None /\ map (fun w => map c_id (w_picked w)) (ws st) = [[2%N]] /\
+  length (filter (fun e => match e with EvDispatch _ _ _ _ _ => true | _ => false end) (trace st)) = 2.
+Proof. vm_compute. repeat split. Qed.
+
 (* non-vacuity: two workers, limit 1; a connection whose service call panics kills worker 1's generation, the next connection's
    dispatch discovers it, the replacement (generation 2, same index 1) is in the rotation afterwards *)
 Example C01_e2e_example :
@@ -220,3 +235,4 @@ Print Assumptions C01_once.
 Print Assumptions C01_routing.
 Print Assumptions C01_builder_tokens.
 Print Assumptions C01_e2e_oracle_reachable.
+Print Assumptions C01_e2e_ab_oracle_reachable.
